@@ -1,6 +1,8 @@
 import SJ.Proofs.TypedAgree
 import SJ.Proofs.StreamValues
 import SJ.Proofs.RoundTrip
+import SJ.Proofs.SerImage
+import SJ.Proofs.SerLayout
 /-!
 # The byte-step machine as a sub-parser of the typed deserializer, on printed text (C16 text leg)
 
@@ -192,5 +194,54 @@ theorem parseStrRaw_quote (env : Env) (s rest : Bytes) (pos : Nat) :
   unfold parseStrRaw
   rw [runRaw_items]
   simp [runRaw, stepRaw]
+
+end SJ.Proofs.Typed
+
+/-! ## the printed text of a value is one RFC 8259 value; `ignore_value` skips it -/
+
+namespace SJ.Proofs.Typed
+open SJ SJ.Gen SJ.Model SJ.Model.Typed
+open SJ.Spec.Image (render imageOfValue cstOf valueLitsOK valuesLitsOK membersLitsOK)
+open SJ.Proofs.Complete (numCont)
+
+mutual
+theorem valueLitsOK_of_shapeW : ∀ v : JV, shapeW v = true → valueLitsOK v = true
+  | .null, _ | .bool _, _ | .str _, _ => rfl
+  | .num (.pos _), _ | .num (.neg _), _ | .num (.float _), _ => rfl
+  | .num (.lit s), h => by simp [shapeW, Spec.WF.wfNum] at h
+  | .arr xs, h => by
+    simp only [shapeW, valueLitsOK] at h ⊢
+    exact valuesLitsOK_of_shapeWs xs h
+  | .obj kvs, h => by
+    simp only [shapeW, valueLitsOK] at h ⊢
+    exact membersLitsOK_of_shapeWm kvs h
+theorem valuesLitsOK_of_shapeWs : ∀ xs : List JV, shapeWs xs = true → valuesLitsOK xs = true
+  | [], _ => rfl
+  | x :: xs, h => by
+    simp only [shapeWs, valuesLitsOK, Bool.and_eq_true] at h ⊢
+    exact ⟨valueLitsOK_of_shapeW x h.1, valuesLitsOK_of_shapeWs xs h.2⟩
+theorem membersLitsOK_of_shapeWm : ∀ kvs : List (Bytes × JV), shapeWm kvs = true → membersLitsOK kvs = true
+  | [], _ => rfl
+  | (k, x) :: kvs, h => by
+    simp only [shapeWm, membersLitsOK, Bool.and_eq_true] at h ⊢
+    exact ⟨valueLitsOK_of_shapeW x h.1.2, membersLitsOK_of_shapeWm kvs h.2⟩
+end
+
+theorem T_derives (ext : Spec.Program.Ext) (hext : Spec.Program.ExtOK ext) (v : JV) (hv : shapeW v = true) :
+    Spec.Grammar.Derives (T ext v) (cstOf (imageOfValue ext v)) := by
+  have hl := valueLitsOK_of_shapeW v hv
+  have hw := SJ.Proofs.SerImage.image_wf ext hext _ _ (SJ.Proofs.SerValue.ofValue_wf v hl) (SJ.Proofs.SerValue.image_ofValue ext v)
+  exact SJ.Proofs.SerLayout.derives_layout (fun _ => []) [] (fun _ => rfl) rfl _ 0 hw
+
+/-- `ignore_value` on a printed value followed by a separator -/
+theorem ignoreValue_T (ext : Spec.Program.Ext) (hext : Spec.Program.ExtOK ext) (env : Env) (hflt : env.flt = false) (v : JV)
+    (hv : shapeW v = true) (rest : Bytes) (pos : Nat) (hs : SepOK rest) :
+    ignoreValue env (T ext v ++ rest) pos = .ok () rest (pos + (T ext v).length) := by
+  refine ignoreValue_text env hflt _ _ (T_derives ext hext v hv) rest pos ?_
+  intro _ d r' hr
+  rcases hs with rfl | ⟨c, tl, rfl, hc⟩
+  · cases hr
+  · cases hr
+    rcases hc with rfl | rfl | rfl <;> decide
 
 end SJ.Proofs.Typed
